@@ -8,7 +8,7 @@ import glob
 CHECKS = {}
 for f in sorted(glob.glob(os.path.join(V, "lib", "cfg", "C*.json"))):
     c = json.load(open(f))
-    if c.get("manifest") and not c.get("disabled"):
+    if c.get("manifest") and not c.get("disabled") and os.path.basename(f)[:-5] in d.READY:
         CHECKS[os.path.basename(f)[:-5]] = c["manifest"]
 checks = []
 for pid, c in sorted(CHECKS.items()):
